@@ -87,6 +87,25 @@ var two43 = new(big.Rat).SetInt(new(big.Int).Lsh(big.NewInt(1), 43))
 //   |r - exact| <= |exact| * 2^-53  (+ 2^-1075 for a non-zero product/quotient that may underflow)
 //   exact * 1024 integral and |exact| < 2^43  =>  r == exact   (such values have <= 53 significant bits)
 func (x *Exec) roundedVar(exact *Term, st *State, mayUnderflow bool) *Term {
+	// IEEE operations are functions of their operands: the same exact value rounds to the same double
+	if x.roundCache == nil {
+		x.roundCache = map[int]*Term{}
+		x.roundFacts = map[int][]*Term{}
+	}
+	if r, ok := x.roundCache[exact.id]; ok {
+		for _, f := range x.roundFacts[exact.id] {
+			st.assume(f)
+		}
+		return r
+	}
+	n0 := len(st.pc)
+	r := x.roundedVar1(exact, st, mayUnderflow)
+	x.roundFacts[exact.id] = append([]*Term{}, st.pc[n0:]...)
+	x.roundCache[exact.id] = r
+	return r
+}
+
+func (x *Exec) roundedVar1(exact *Term, st *State, mayUnderflow bool) *Term {
 	r := freshVar("fl", SReal)
 	ab := mkAbs(exact)
 	err := mkMul(mkRat(eps53), ab)
@@ -105,6 +124,10 @@ func (x *Exec) roundedVar(exact *Term, st *State, mayUnderflow bool) *Term {
 	ex := mkImplies(mkAnd(isInt, mkLt(ab, mkRat(two43))), mkEq(r, exact))
 	exactnessHyp[ex.id] = true
 	st.assume(ex)
+	// rounding is monotone and integers below 2^53 are representable: floor(exact) <= r <= ceil(exact)
+	mono := mkImplies(mkLt(ab, mkRat(two43)), mkAnd(mkLe(toReal(mkFloor(exact)), r), mkLe(r, toReal(mkNeg(mkFloor(mkNeg(exact)))))))
+	exactnessHyp[mono.id] = true
+	st.assume(mono)
 	return r
 }
 
@@ -583,3 +606,14 @@ func (x *Exec) evalStr(e ast.Expr, st *State) *StrV {
 }
 
 var _ = fmt.Sprint
+
+// sterbenz: for doubles a, b with b/2 <= a <= 2b the difference a-b is exact.
+func (x *Exec) sterbenz(a, b, r *Term, st *State) {
+	if x.specMode > 0 || r.Op != "var" {
+		return
+	}
+	two := mkRat(big.NewRat(2, 1))
+	z := mkRat(new(big.Rat))
+	cond := mkAnd(mkLe(z, b), mkLe(b, mkMul(two, a)), mkLe(a, mkMul(two, b)))
+	st.assume(mkImplies(cond, mkEq(r, mkSub(a, b))))
+}
